@@ -219,121 +219,233 @@ theorem ofUnit_death (x : Res Unit) : deathOf (ofUnit x).1 = resDeath x.1 ∧ (o
   | ok u => exact ⟨rfl, rfl⟩
   | error e => exact ⟨deathOf_err e, rfl⟩
 
-/-- **one operation**: the monitor accepts the observation of the model and stays in step -/
-theorem c05_step (m : DeathMon) (r : RunSt) (op : Op) (hrel : Rel m r) (hop : opDeathOk op) :
-    (c05 m op (obsOp op r).1).1 = true ∧ Rel (c05 m op (obsOp op r).1).2 (obsOp op r).2 := by
+/-- operations that change the set of registrations -/
+def isDeathOp : Op → Bool
+  | .deathEnter _ _ | .deathAdd _ _ | .deathExit => true
+  | _ => false
+
+/-- **SCOPING (1).**  An operation that is neither a read nor a registration / de-registration
+    reads nothing, leaves the registrations (rings included) and the open `with` frames alone
+    and never raises a death-string exception. -/
+theorem runOp_quiet (r : RunSt) (op : Op) (h1 : isReadOp op = false) (h2 : isDeathOp op = false) :
+    Quiet (cut r.st) (runOp op (cutR r)).2.st ∧ deathOf (runOp op (cutR r)).1 = none
+      ∧ (runOp op (cutR r)).2.deaths = r.deaths := by
   cases op with
-  | setPrompt p => exact step_quiet m r _ hrel (fun _ => rfl) ⟨rfl, rfl, rfl⟩ rfl rfl
-  | promptEnter p => exact step_quiet m r _ hrel (fun _ => rfl) ⟨rfl, rfl, rfl⟩ rfl rfl
+  | setPrompt p => exact ⟨⟨rfl, rfl, rfl⟩, rfl, rfl⟩
+  | promptEnter p => exact ⟨⟨rfl, rfl, rfl⟩, rfl, rfl⟩
   | promptExit =>
-    refine step_quiet m r _ hrel (fun _ => rfl) ?_ ?_ ?_
-    all_goals
-      simp only [runOp, cutR]
-      cases r.prompts <;> first | exact ⟨rfl, rfl, rfl⟩ | rfl
-  | setBlacklist b => exact step_quiet m r _ hrel (fun _ => rfl) ⟨rfl, rfl, rfl⟩ rfl rfl
-  | setSlow d c => exact step_quiet m r _ hrel (fun _ => rfl) ⟨rfl, rfl, rfl⟩ rfl rfl
-  | streamEnter id sp => exact step_quiet m r _ hrel (fun _ => rfl) ⟨rfl, rfl, rfl⟩ rfl rfl
+    simp only [runOp, cutR]
+    cases r.prompts <;> exact ⟨⟨rfl, rfl, rfl⟩, rfl, rfl⟩
+  | setBlacklist b => exact ⟨⟨rfl, rfl, rfl⟩, rfl, rfl⟩
+  | setSlow d c => exact ⟨⟨rfl, rfl, rfl⟩, rfl, rfl⟩
+  | streamEnter id sp => exact ⟨⟨rfl, rfl, rfl⟩, rfl, rfl⟩
   | streamExit =>
-    refine step_quiet m r _ hrel (fun _ => rfl) ?_ ?_ ?_
-    all_goals
-      simp only [runOp, cutR]
-      cases r.streams <;> first | exact ⟨rfl, rfl, rfl⟩ | rfl
-  | sleep n => exact step_quiet m r _ hrel (fun _ => rfl) ⟨rfl, rfl, rfl⟩ rfl rfl
+    simp only [runOp, cutR]
+    cases r.streams <;> exact ⟨⟨rfl, rfl, rfl⟩, rfl, rfl⟩
+  | sleep n => exact ⟨⟨rfl, rfl, rfl⟩, rfl, rfl⟩
   | write b ign =>
     have h := write_quiet b ign (cut r.st)
     have hu := ofUnit_death (write b ign (cut r.st))
-    refine step_quiet m r _ hrel (fun _ => rfl) ?_ ?_ ?_
-    · simp only [runOp, cutR, hu.2]; exact h.1
-    · simp only [runOp, cutR, hu.1]; exact h.2
-    · rfl
+    simp only [runOp, cutR, hu.1, hu.2]
+    exact ⟨h.1, h.2, by first | rfl | trivial⟩
   | sendcontrol n =>
     have h := sendcontrol_quiet n (cut r.st)
     have hu := ofUnit_death (sendcontrol n (cut r.st))
-    refine step_quiet m r _ hrel (fun _ => rfl) ?_ ?_ ?_
-    · simp only [runOp, cutR, hu.2]; exact h.1
-    · simp only [runOp, cutR, hu.1]; exact h.2
-    · rfl
+    simp only [runOp, cutR, hu.1, hu.2]
+    exact ⟨h.1, h.2, by first | rfl | trivial⟩
   | send b rb t ign =>
-    have hu := ofUnit_death (send b rb t ign (cut r.st))
     cases rb with
+    | true => simp [isReadOp] at h1
     | false =>
       have h := send_quiet b t ign (cut r.st)
-      refine step_quiet m r _ hrel (fun _ => rfl) ?_ ?_ ?_
-      · simp only [runOp, cutR, hu.2]; exact h.1
-      · simp only [runOp, cutR, hu.1]; exact h.2
-      · rfl
-    | true =>
-      have h := send_dt b true t ign (cut r.st)
-      refine step_read m r _ hrel (fun _ => rfl) ?_ rfl
-      simp only [runOp, cutR, hu.1, hu.2]; exact h
+      have hu := ofUnit_death (send b false t ign (cut r.st))
+      simp only [runOp, cutR, hu.1, hu.2]
+      exact ⟨h.1, h.2, by first | rfl | trivial⟩
   | sendline b rb t =>
-    have hu := ofUnit_death (sendline b rb t (cut r.st))
     cases rb with
+    | true => simp [isReadOp] at h1
     | false =>
       have h := send_quiet (b ++ [13]) t false (cut r.st)
-      refine step_quiet m r _ hrel (fun _ => rfl) ?_ ?_ ?_
-      · simp only [runOp, cutR, hu.2]; exact h.1
-      · simp only [runOp, cutR, hu.1]; exact h.2
-      · rfl
+      have hu := ofUnit_death (sendline b false t (cut r.st))
+      simp only [runOp, cutR, hu.1, hu.2]
+      exact ⟨h.1, h.2, by first | rfl | trivial⟩
+  | read n t => simp [isReadOp] at h1
+  | readIter mx t k => simp [isReadOp] at h1
+  | readline e t => simp [isReadOp] at h1
+  | expect ps t => simp [isReadOp] at h1
+  | rup p t => simp [isReadOp] at h1
+  | rut t => simp [isReadOp] at h1
+  | deathEnter p e => simp [isDeathOp] at h2
+  | deathAdd p e => simp [isDeathOp] at h2
+  | deathExit => simp [isDeathOp] at h2
+
+/-- **every read-type operation funnels every delivered piece through `_check` exactly once**,
+    in order, stops at the first delivery for which `_check` reports a match, and raises
+    exactly that match (`DT` / `DTrace`); the open `with` frames are left alone. -/
+theorem runOp_read (r : RunSt) (op : Op) (h1 : isReadOp op = true) :
+    DT (cut r.st) (runOp op (cutR r)).2.st (deathOf (runOp op (cutR r)).1)
+      ∧ (runOp op (cutR r)).2.deaths = r.deaths := by
+  cases op with
+  | send b rb t ign =>
+    cases rb with
+    | false => simp [isReadOp] at h1
     | true =>
+      have hu := ofUnit_death (send b true t ign (cut r.st))
+      have h := send_dt b true t ign (cut r.st)
+      simp only [runOp, cutR, hu.1, hu.2]
+      exact ⟨h, by first | rfl | trivial⟩
+  | sendline b rb t =>
+    cases rb with
+    | false => simp [isReadOp] at h1
+    | true =>
+      have hu := ofUnit_death (sendline b true t (cut r.st))
       have h := send_dt (b ++ [13]) true t false (cut r.st)
-      refine step_read m r _ hrel (fun _ => rfl) ?_ rfl
-      simp only [runOp, cutR, hu.1, hu.2]; exact h
+      simp only [runOp, cutR, hu.1, hu.2]
+      exact ⟨h, by first | rfl | trivial⟩
   | read n t =>
     have h := read_dt n t (cut r.st)
-    refine step_read m r _ hrel (fun _ => rfl) ?_ ?_
-    all_goals
-      simp only [runOp, cutR]
-      generalize Chan.read n t (cut r.st) = out at h
-      obtain ⟨res, s'⟩ := out
-      cases res with
-      | ok b => first | exact h | rfl
-      | error e => first | (rw [deathOf_err]; exact h) | rfl
+    simp only [runOp, cutR]
+    generalize Chan.read n t (cut r.st) = out at h
+    obtain ⟨res, s'⟩ := out
+    cases res with
+    | ok b => exact ⟨h, by first | rfl | trivial⟩
+    | error e => exact ⟨by rw [deathOf_err]; exact h, by first | rfl | trivial⟩
   | readIter mx t k =>
     have h := riTake_dt (fuelFor (cut r.st)) k (riStart mx t (cut r.st)) (cut r.st) []
-    refine step_read m r _ hrel (fun _ => rfl) ?_ rfl
     simp only [runOp, cutR, deathOf_chunks]
-    exact h
+    exact ⟨h, by first | rfl | trivial⟩
   | readline e t =>
     have h := readlineLoop_dt (fuelFor (cut r.st)) e [] (cut r.st).now t (cut r.st)
-    refine step_read m r _ hrel (fun _ => rfl) ?_ ?_
-    all_goals
-      simp only [runOp, cutR, readline]
-      generalize readlineLoop (fuelFor (cut r.st)) e [] (cut r.st).now t (cut r.st) = out at h
-      obtain ⟨res, s'⟩ := out
-      cases res with
-      | ok b => first | exact h | rfl
-      | error e => first | (rw [deathOf_err]; exact h) | rfl
+    simp only [runOp, cutR, readline]
+    generalize readlineLoop (fuelFor (cut r.st)) e [] (cut r.st).now t (cut r.st) = out at h
+    obtain ⟨res, s'⟩ := out
+    cases res with
+    | ok b => exact ⟨h, by first | rfl | trivial⟩
+    | error e => exact ⟨by rw [deathOf_err]; exact h, by first | rfl | trivial⟩
   | expect ps t =>
     have h := expectLoop_dt (fuelFor (cut r.st)) ps [] (riStart none t (cut r.st)) (cut r.st)
-    refine step_read m r _ hrel (fun _ => rfl) ?_ ?_
-    all_goals
-      simp only [runOp, cutR, expect]
-      generalize expectLoop (fuelFor (cut r.st)) ps [] (riStart none t (cut r.st)) (cut r.st) = out at h
-      obtain ⟨res, s'⟩ := out
-      cases res with
-      | ok b => first | exact h | rfl
-      | error e => first | (rw [deathOf_err]; exact h) | rfl
+    simp only [runOp, cutR, expect]
+    generalize expectLoop (fuelFor (cut r.st)) ps [] (riStart none t (cut r.st)) (cut r.st) = out at h
+    obtain ⟨res, s'⟩ := out
+    cases res with
+    | ok b => exact ⟨h, by first | rfl | trivial⟩
+    | error e => exact ⟨by rw [deathOf_err]; exact h, by first | rfl | trivial⟩
   | rup p t =>
     have h := readUntilPrompt_dt p t (cut r.st)
-    refine step_read m r _ hrel (fun _ => rfl) ?_ ?_
-    all_goals
-      simp only [runOp, cutR]
-      generalize readUntilPrompt p t (cut r.st) = out at h
-      obtain ⟨res, s'⟩ := out
-      cases res with
-      | ok b => first | exact h | rfl
-      | error e => first | (rw [deathOf_err]; exact h) | rfl
+    simp only [runOp, cutR]
+    generalize readUntilPrompt p t (cut r.st) = out at h
+    obtain ⟨res, s'⟩ := out
+    cases res with
+    | ok b => exact ⟨h, by first | rfl | trivial⟩
+    | error e => exact ⟨by rw [deathOf_err]; exact h, by first | rfl | trivial⟩
   | rut t =>
     have h := readUntilTimeout_dt t (cut r.st)
-    refine step_read m r _ hrel (fun _ => rfl) ?_ ?_
-    all_goals
-      simp only [runOp, cutR]
-      generalize readUntilTimeout t (cut r.st) = out at h
-      obtain ⟨res, s'⟩ := out
-      cases res with
-      | ok b => first | exact h | rfl
-      | error e => first | (rw [deathOf_err]; exact h) | rfl
+    simp only [runOp, cutR]
+    generalize readUntilTimeout t (cut r.st) = out at h
+    obtain ⟨res, s'⟩ := out
+    cases res with
+    | ok b => exact ⟨h, by first | rfl | trivial⟩
+    | error e => exact ⟨by rw [deathOf_err]; exact h, by first | rfl | trivial⟩
+  | setPrompt p => simp [isReadOp] at h1
+  | promptEnter p => simp [isReadOp] at h1
+  | promptExit => simp [isReadOp] at h1
+  | setBlacklist b => simp [isReadOp] at h1
+  | setSlow d c => simp [isReadOp] at h1
+  | streamEnter id sp => simp [isReadOp] at h1
+  | streamExit => simp [isReadOp] at h1
+  | sleep n => simp [isReadOp] at h1
+  | write b ign => simp [isReadOp] at h1
+  | sendcontrol n => simp [isReadOp] at h1
+  | deathEnter p e => simp [isReadOp] at h1
+  | deathAdd p e => simp [isReadOp] at h1
+  | deathExit => simp [isReadOp] at h1
+
+/-- **SCOPING (2).**  `with_death_string` entry / `add_death_string` add one registration with
+    an empty ring (and a fresh id) in front; nothing else changes. -/
+theorem deathEnter_deaths (p : Pat) (e : Nat) (s : St) :
+    (Chan.deathEnter p e s).1 = s.nextDeath
+      ∧ (Chan.deathEnter p e s).2.deaths = { id := s.nextDeath, pat := p, exc := e, ring := [] } :: s.deaths
+      ∧ (Chan.deathEnter p e s).2.nextDeath = s.nextDeath + 1 := ⟨rfl, rfl, rfl⟩
+
+/-- **SCOPING (3).**  `with_death_string` exit removes exactly its own registration; the rings
+    of the others are untouched. -/
+theorem deathExit_deaths (id : Nat) (s : St) :
+    (Chan.deathExit id s).deaths = s.deaths.filter (·.id != id)
+      ∧ (Chan.deathExit id s).nextDeath = s.nextDeath := ⟨rfl, rfl⟩
+
+theorem c05_of_read (m : DeathMon) (op : Op) (h1 : isReadOp op = true) (o : OpObs) :
+    c05 m op o = ((c05Walk o.res (delivered o) m.regs).1,
+      { m with regs := (c05Walk o.res (delivered o) m.regs).2 }) := by
+  cases op with
+  | send b rb t ign => cases rb with
+    | false => simp [isReadOp] at h1
+    | true => rfl
+  | sendline b rb t => cases rb with
+    | false => simp [isReadOp] at h1
+    | true => rfl
+  | read n t => rfl
+  | readIter mx t k => rfl
+  | readline e t => rfl
+  | expect ps t => rfl
+  | rup p t => rfl
+  | rut t => rfl
+  | setPrompt p => simp [isReadOp] at h1
+  | promptEnter p => simp [isReadOp] at h1
+  | promptExit => simp [isReadOp] at h1
+  | setBlacklist b => simp [isReadOp] at h1
+  | setSlow d c => simp [isReadOp] at h1
+  | streamEnter id sp => simp [isReadOp] at h1
+  | streamExit => simp [isReadOp] at h1
+  | sleep n => simp [isReadOp] at h1
+  | write b ign => simp [isReadOp] at h1
+  | sendcontrol n => simp [isReadOp] at h1
+  | deathEnter p e => simp [isReadOp] at h1
+  | deathAdd p e => simp [isReadOp] at h1
+  | deathExit => simp [isReadOp] at h1
+
+theorem c05_of_quiet (m : DeathMon) (op : Op) (h1 : isReadOp op = false) (h2 : isDeathOp op = false) (o : OpObs) :
+    c05 m op o = ((deathOf o.res).isNone, m) := by
+  cases op with
+  | send b rb t ign => cases rb with
+    | true => simp [isReadOp] at h1
+    | false => rfl
+  | sendline b rb t => cases rb with
+    | true => simp [isReadOp] at h1
+    | false => rfl
+  | read n t => simp [isReadOp] at h1
+  | readIter mx t k => simp [isReadOp] at h1
+  | readline e t => simp [isReadOp] at h1
+  | expect ps t => simp [isReadOp] at h1
+  | rup p t => simp [isReadOp] at h1
+  | rut t => simp [isReadOp] at h1
+  | setPrompt p => rfl
+  | promptEnter p => rfl
+  | promptExit => rfl
+  | setBlacklist b => rfl
+  | setSlow d c => rfl
+  | streamEnter id sp => rfl
+  | streamExit => rfl
+  | sleep n => rfl
+  | write b ign => rfl
+  | sendcontrol n => rfl
+  | deathEnter p e => simp [isDeathOp] at h2
+  | deathAdd p e => simp [isDeathOp] at h2
+  | deathExit => simp [isDeathOp] at h2
+
+/-- **one operation**: the monitor accepts the observation of the model and stays in step -/
+theorem c05_step (m : DeathMon) (r : RunSt) (op : Op) (hrel : Rel m r) (hop : opDeathOk op) :
+    (c05 m op (obsOp op r).1).1 = true ∧ Rel (c05 m op (obsOp op r).1).2 (obsOp op r).2 := by
+  cases hread : isReadOp op with
+  | true =>
+    have h := runOp_read r op hread
+    exact step_read m r op hrel (c05_of_read m op hread) h.1 h.2
+  | false =>
+  cases hdeath : isDeathOp op with
+  | false =>
+    have h := runOp_quiet r op hread hdeath
+    exact step_quiet m r op hrel (c05_of_quiet m op hread hdeath) h.1 h.2.1 h.2.2
+  | true =>
+  cases op with
   | deathEnter p e =>
     refine ⟨rfl, ⟨?_, ?_, ?_, ?_⟩⟩
     · show _ :: (cut r.st).deaths = _
@@ -385,6 +497,78 @@ theorem c05_step (m : DeathMon) (r : RunSt) (op : Op) (hrel : Rel m r) (hop : op
         rfl
       · intro reg hreg
         exact hrel.inv reg (List.mem_filter.mp hreg).1
+  | setPrompt p => simp [isDeathOp] at hdeath
+  | promptEnter p => simp [isDeathOp] at hdeath
+  | promptExit => simp [isDeathOp] at hdeath
+  | setBlacklist b => simp [isDeathOp] at hdeath
+  | setSlow d c => simp [isDeathOp] at hdeath
+  | streamEnter id sp => simp [isDeathOp] at hdeath
+  | streamExit => simp [isDeathOp] at hdeath
+  | sleep n => simp [isDeathOp] at hdeath
+  | write b ign => simp [isDeathOp] at hdeath
+  | sendcontrol n => simp [isDeathOp] at hdeath
+  | send b rb t ign => simp [isDeathOp] at hdeath
+  | sendline b rb t => simp [isDeathOp] at hdeath
+  | read n t => simp [isDeathOp] at hdeath
+  | readIter mx t k => simp [isDeathOp] at hdeath
+  | readline e t => simp [isDeathOp] at hdeath
+  | expect ps t => simp [isDeathOp] at hdeath
+  | rup p t => simp [isDeathOp] at hdeath
+  | rut t => simp [isDeathOp] at hdeath
+
+/-! ### `Channel._check` on a channel state (the ring-buffer theorem) -/
+
+/-- **INVARIANT.**  If every registration's ring equals the last `min (2 * pat.len) |since|`
+    bytes of the data `since` received since its registration (`s.deaths = regs.map toDeath`),
+    then after `_check incoming` every ring equals the last `min (2 * pat.len) |since ++ incoming|`
+    bytes of `since ++ incoming` — whether or not a match was found (all windows are processed);
+    ids, strings and exception tags are unchanged. -/
+theorem check_invariant (regs : List Reg) (s : St) (incoming : Bytes) (h : s.deaths = regs.map toDeath) :
+    (check incoming s).2.deaths = (regs.map (ext incoming)).map toDeath := by
+  rw [(check_deaths incoming s).1, h, chk_invariant]
+
+/-- **COMPLETENESS.**  If the string of some registration (admissible: non-empty literal, or
+    anchor-free non-nullable regex) occurs in `since ++ incoming` with an occurrence `u` that
+    ends inside `incoming`, then `_check incoming` raises a death-string exception. -/
+theorem check_complete (regs : List Reg) (s : St) (incoming : Bytes) (h : s.deaths = regs.map toDeath)
+    (r : Reg) (hr : r ∈ regs) (hp : PatOk r.pat) (x u y : Bytes) (hu : Occ r.pat u)
+    (heq : r.since ++ incoming = x ++ u ++ y) (hy : y.length < incoming.length) :
+    ∃ e m, (check incoming s).1 = .error (.death e m) := by
+  have hc := chk_complete regs incoming r hr hp x u y hu heq hy
+  rw [check_eq, h]
+  cases hv : (chk (regs.map toDeath) incoming).1 with
+  | none => rw [hv] at hc; simp at hc
+  | some v => exact ⟨v.1, v.2, rfl⟩
+
+/-- completeness for a literal death string `p` (length ≥ 1) -/
+theorem check_complete_lit (regs : List Reg) (s : St) (incoming : Bytes) (h : s.deaths = regs.map toDeath)
+    (r : Reg) (hr : r ∈ regs) (p : Bytes) (hpat : r.pat = .lit p) (hne : p ≠ []) (x y : Bytes)
+    (heq : r.since ++ incoming = x ++ p ++ y) (hy : y.length < incoming.length) :
+    ∃ e m, (check incoming s).1 = .error (.death e m) :=
+  check_complete regs s incoming h r hr (by rw [hpat]; exact hne) x p y (by rw [hpat]; rfl) heq hy
+
+/-- **SOUNDNESS.**  If `_check incoming` raises `.death e m` then some registration with
+    exception tag `e` has its string occurring in its `since ++ incoming`, and `m` is that
+    occurrence. -/
+theorem check_sound (regs : List Reg) (s : St) (incoming : Bytes) (h : s.deaths = regs.map toDeath)
+    (e : Nat) (m : Bytes) (hc : (check incoming s).1 = .error (.death e m)) :
+    ∃ r ∈ regs, r.exc = e ∧ (PatOk r.pat → Occ r.pat m ∧ ∃ x y, r.since ++ incoming = x ++ m ++ y) := by
+  have h1 := check_res incoming s
+  rw [hc, h] at h1
+  exact chk_sound regs incoming e m h1.symm
+
+/-- soundness when the registrations are non-empty literals: `m` is the string itself -/
+theorem check_sound_lit (regs : List Reg) (s : St) (incoming : Bytes) (h : s.deaths = regs.map toDeath)
+    (hlit : ∀ r ∈ regs, ∃ p, r.pat = .lit p ∧ p ≠ [])
+    (e : Nat) (m : Bytes) (hc : (check incoming s).1 = .error (.death e m)) :
+    ∃ r ∈ regs, r.exc = e ∧ r.pat = .lit m ∧ ∃ x y, r.since ++ incoming = x ++ m ++ y := by
+  obtain ⟨r, hr, he, hocc⟩ := check_sound regs s incoming h e m hc
+  obtain ⟨p, hp, hne⟩ := hlit r hr
+  obtain ⟨ho, hxy⟩ := hocc (by rw [hp]; exact hne)
+  rw [hp] at ho
+  have : m = p := occ_lit p m ho
+  subst this
+  exact ⟨r, hr, he, hp, hxy⟩
 
 /-! ### whole cases -/
 
@@ -408,5 +592,90 @@ theorem case_spec_ok (c : Case) (h : ∀ op ∈ c.ops, opDeathOk op) : Spec.C05 
   unfold Spec.C05 Chan.run
   simp only
   exact run_spec c.ops {} (initSt c) (rel_init c) h
+
+/-! ### decidable side conditions -/
+
+/-- admissible death strings, decidably: a non-empty literal, or a regex without `\Z` that does
+    not match the empty input -/
+def patOkB : Pat → Bool
+  | .lit b => !b.isEmpty
+  | .re r => r.noEos && (r.search []).isNone
+
+theorem patOk_of (p : Pat) (h : patOkB p = true) : PatOk p := by
+  cases p with
+  | lit b => simpa [patOkB, PatOk] using h
+  | re r =>
+    simp only [patOkB, Bool.and_eq_true] at h
+    refine ⟨h.1, fun hl => ?_⟩
+    have := Re.search_complete r h.1 [] [] [] hl
+    simp only [List.append_nil] at this
+    cases hs : r.search [] with
+    | none => rw [hs] at this; simp at this
+    | some v => rw [hs] at h; simp at h
+
+def deathOpOk : Op → Bool
+  | .deathEnter p _ | .deathAdd p _ => patOkB p
+  | _ => true
+
+def litOpOk : Op → Bool
+  | .deathEnter (.lit b) _ | .deathAdd (.lit b) _ => !b.isEmpty
+  | .deathEnter (.re _) _ | .deathAdd (.re _) _ => false
+  | _ => true
+
+theorem opDeathOk_of (op : Op) (h : deathOpOk op = true) : opDeathOk op := by
+  cases op with
+  | deathEnter p e => exact patOk_of p h
+  | deathAdd p e => exact patOk_of p h
+  | _ => trivial
+
+theorem deathOpOk_of_lit (op : Op) (h : litOpOk op = true) : deathOpOk op = true := by
+  cases op with
+  | deathEnter p e => cases p with
+    | lit b => exact h
+    | re r => simp [litOpOk] at h
+  | deathAdd p e => cases p with
+    | lit b => exact h
+    | re r => simp [litOpOk] at h
+  | _ => rfl
+
+/-- **C05 (whole case).**  For every case — any script, chunk size, timeouts, any interleaving
+    of reads, writes, prompt / stream / death-string scopes — whose death strings are
+    non-empty literals or anchor-free regexes that do not match the empty input: a registered
+    death string aborts the read in which its first occurrence completes, never earlier, with
+    the exception of a string that has occurred, and never after its scope was left. -/
+theorem case_spec (c : Case) (h : c.ops.all deathOpOk = true) : Spec.C05 c (Chan.run c) = true :=
+  case_spec_ok c (fun op hop => opDeathOk_of op (List.all_eq_true.mp h op hop))
+
+/-- **C05 (whole case), literal death strings of length ≥ 1.** -/
+theorem case_spec_lit (c : Case) (h : c.ops.all litOpOk = true) : Spec.C05 c (Chan.run c) = true :=
+  case_spec c (List.all_eq_true.mpr fun op hop => deathOpOk_of_lit op (List.all_eq_true.mp h op hop))
+
+/-! ### non-vacuity -/
+
+/-- the F4 witness: string "AB", one piece "xxxABxxx" (the occurrence straddles two scan windows) -/
+def f4Case : Case :=
+  { chunk := 4096, slice := 64, script := [⟨0, [120, 120, 120, 65, 66, 120, 120, 120]⟩], accept := [],
+    ops := [.deathEnter (.lit [65, 66]) 7, .read none (some 1), .deathExit] }
+
+example : f4Case.ops.all litOpOk = true := by decide
+
+/-- … on which the model does raise, in the read that delivers the piece -/
+example : ((Chan.run f4Case).1.map (·.res) == [.unit, .err (.death 7 [65, 66]), .unit]) = true := by decide
+
+example : Spec.C05 f4Case (Chan.run f4Case) = true := case_spec_lit f4Case (by decide)
+
+/-- the hypotheses of `check_complete` are satisfiable: "x" was received since the registration
+    of "AB", then "xxABxxx" arrives — the windows are "xx", "AB", "xx", "x" but the ring also
+    works when the occurrence is cut: see `f4Case`, where the windows are "xx", "xA", "Bx", "xx" -/
+def f4Reg : Reg := { id := 0, pat := .lit [65, 66], exc := 7, since := [120] }
+
+example : ∃ e m, (check [120, 120, 65, 66, 120, 120, 120] { deaths := [toDeath f4Reg] }).1
+    = .error (.death e m) :=
+  check_complete [f4Reg] { deaths := [toDeath f4Reg] } [120, 120, 65, 66, 120, 120, 120] rfl f4Reg
+    (List.mem_singleton.mpr rfl) (by simp [PatOk, f4Reg]) [120, 120, 120] [65, 66] [120, 120, 120] rfl rfl
+    (by decide)
+
+/-- a regex death string `A[Bx]` is admissible -/
+example : patOkB (.re (.seq (Re.lit1 65) (.cls false [(66, 66), (120, 120)]))) = true := by decide
 
 end C05
